@@ -691,9 +691,10 @@ template <class G> class Explorer {
 };
 
 // Replay entry point shared by all E1-based harnesses: re-executes one history without the explorer.
-template <class G> int replayHistory(const E1Config &cfg, const std::string &prop, const Args &args) {
+template <class G> int replayHistory(const E1Config &cfg, const std::string &prop, const Args &args, std::function<void(const G &, const Model &, ClauseSink &)> stateHook = nullptr) {
     Reporter dummy;
     Explorer<G> ex(cfg, dummy, prop);
+    ex.extraStateCheck = stateHook;
     unsigned start = (unsigned)args.getInt("start", 0);
     std::string enc = args.get("ops", "-");
     auto h = decodeOps(enc == "-" ? "" : enc);
